@@ -66,12 +66,12 @@ Example C32_nonvacuous :
   map p_status (snd (run h0 cfg0 init_world (pre ++ [EComplete [(2, 2)] false (RCode 0)]))) = [200; 200; 502; 200; 400] /\
   map p_status (snd (run h0 cfg0 init_world (pre ++ [EComplete [(1, 1); (2, 2)] false (RCode 6)]))) = [200; 200; 502; 200; 502] /\
   snd (run h0 cfg0 init_world (pre ++ [EComplete [(1, 1); (2, 2)] false (RCode 0)])) =
-    [fail 200; fail 200; fail 502; fail 200;
-     mkResp 200 (Some (mkEnv 0 5243180 (h0 0 [(1, 5242880); (2, 300)]) (h0 0 [(1, 5242880); (2, 300)])))] /\
+    [fail 200; fail 200; fails3 5; fail 200;
+     mkResp 200 (Some (mkEnv 0 5243180 (h0 0 [(1, 5242880); (2, 300)]) (h0 0 [(1, 5242880); (2, 300)]))) 0] /\
   w_objects (fst (run h0 cfg0 init_world (pre ++ [EComplete [(1, 1); (2, 2)] false (RCode 0)]))) =
     [(0, [(1, 5242880); (2, 300)])] /\
   snd (run h0 cfg0 init_world [EProduce [(7, 100)] [] 0 [] (RCode 0); EProduce [(8, 100)] [] 0 [] (RCode 3)]) =
-    [mkResp 200 (Some (mkEnv 0 100 (h0 0 [(7, 100)]) (h0 0 [(7, 100)]))); fail 502].
+    [mkResp 200 (Some (mkEnv 0 100 (h0 0 [(7, 100)]) (h0 0 [(7, 100)]))) 0; fail 502].
 Proof. vm_compute. repeat split. Qed.
 
 (* two PUTs of part 1 in flight and a Complete racing with them; expiry; a request that
@@ -95,5 +95,5 @@ Example C32_nonvacuous_interleaved :
     [CReq (EInit 100 [] 0 false); CArrive (EPart 1 (4, 100) false); CArrive (EPart 1 (3, 100) false);
      CRun 0; CRun 0; CReq (EComplete [(1, 4)] false (RCode 0))]) =
     [Some (fail 200); None; None; Some (fail 200); Some (fail 200);
-     Some (mkResp 200 (Some (mkEnv 0 100 (h0 0 [(4, 100)]) (h0 0 [(4, 100)]))))].
+     Some (mkResp 200 (Some (mkEnv 0 100 (h0 0 [(4, 100)]) (h0 0 [(4, 100)]))) 0)].
 Proof. vm_compute. repeat split. Qed.
